@@ -758,12 +758,18 @@ func (ex *Exec) enterLoop(fr *Frame, li *loopInfo, states []*State, conds []Term
 	}
 	sort.Slice(allocs, func(i, j int) bool { return allocs[i].Name() < allocs[j].Name() })
 	narrowed := ex.invariantDynTypes(fr, ls)
+	// the allocation watermark at an arbitrary iteration: anything allocated by earlier iterations lies below it, so
+	// the values carried around the back edge (slices grown by append, pointers to objects made in the loop) are typed
+	// against it and not against the watermark at loop entry
+	newTop := ex.vc.fresh("top", SInt)
+	ex.vc.assume(Ge(newTop, pre.top))
+	st.top = newTop
 	for _, a := range allocs {
 		if _, live := pre.locals[a]; !live {
 			// declared inside the loop: no value carried around the back edge
 			continue
 		}
-		v := ex.freshVal(a.Comment, a.Type().(*types.Pointer).Elem(), pre)
+		v := ex.freshVal(a.Comment, a.Type().(*types.Pointer).Elem(), st)
 		if dt, ok := narrowed[a.Comment]; ok {
 			// an invariant conjunct typeis(x, T) fixes the dynamic type of this interface local: keep it syntactic
 			// so that method calls on it are resolved statically (the conjunct itself is proved like any invariant)
@@ -788,8 +794,6 @@ func (ex *Exec) enterLoop(fr *Frame, li *loopInfo, states []*State, conds []Term
 	}
 	// 3. discover heap effects with a dry run of the body (discarded)
 	eff := ex.dryRunLoop(fr, li, st, reach)
-	newTop := ex.vc.fresh("top", SInt)
-	ex.vc.assume(Ge(newTop, pre.top))
 	topPre := pre.top
 	invRoots := map[string][]Term{}
 	st.top = newTop
